@@ -569,6 +569,41 @@ def run_biot_savart_wrapper(mutate=None):
                     check(f"C20.biot_savart_2d.current_density_in_amp_per_metre[{tag}]", z3.And(Jk.cols[0].v.e == (SR(R("jx")) * tj).e, Jk.cols[1].v.e == (SR(R("jy")) * tj).e))
                     check(f"C20.biot_savart_2d.areas_in_square_metres[{tag}]", ak.v.e == (SR(R("area")) * tm * tm).e)
                     check(f"C20.biot_savart_2d.result_in_tesla[{tag}]", z3.BoolVal(isinstance(out, tuple) and out[1] == "tesla" and out[0].which == calls[0][0]))
+        # areas=None (the documented default): "the positions are triangulated to calculate vertex areas" - the triangulation is the Delaunay triangulation of
+        # the given sheet positions, the areas handed to the kernel are the cell areas of the mesh built from THESE positions (in metres) and THAT
+        # triangulation, taken as they are (already in square metres)
+        tri_calls, mesh_calls = [], []
+
+        class _Tri:
+            def __init__(self, pts):
+                tri_calls.append(pts)
+                self.simplices = ("SIMPLICES", len(tri_calls))
+
+        class _MeshStub:
+            @staticmethod
+            def from_triangulation(sites, elements, create_submesh=True):
+                mesh_calls.append((sites, elements, create_submesh))
+                return type("M", (), {"areas": KCol(SR(R("cell_area_m2")))})()
+        L.ns["spatial"] = type("spatial", (), {"Delaunay": _Tri})
+        L.ns["Mesh"] = _MeshStub
+        for vector in (True, False):
+            pos = Rows([KCol(SR(R("px")), "r", _Len("m")), KCol(SR(R("py")), "r", _Len("m"))])
+            J = Rows([KCol(SR(R("jx"))), KCol(SR(R("jy")))])
+            del calls[:], tri_calls[:], mesh_calls[:]
+            tag = f"areas=None, {'vector' if vector else 'z'}"
+            try:
+                out = fn(KCol(SR(R("x_k")), "r", _Len("n")), KCol(SR(R("y_k")), "r", _Len("n")), SR(R("z")), positions=pos, current_densities=J, z0=SR(R("z0")), length_units="um", current_units="uA", vector=vector)
+            except sym.Unsupported:
+                raise
+            want_xy = [SR(R("px")) * tm, SR(R("py")) * tm]
+
+            def is_sheet(a):
+                return isinstance(a, Rows) and len(a.cols) == 2 and all(z3.is_true(z3.simplify(c_.v.e == w_.e)) for c_, w_ in zip(a.cols, want_xy))
+            check(f"C20.biot_savart_2d.default_areas.positions_are_triangulated[{tag}]", z3.BoolVal(len(tri_calls) == 1 and is_sheet(tri_calls[0])))
+            check(f"C20.biot_savart_2d.default_areas.cell_areas_of_the_mesh_of_these_positions_and_that_triangulation[{tag}]",
+                  z3.BoolVal(len(mesh_calls) == 1 and is_sheet(mesh_calls[0][0]) and len(tri_calls) == 1 and mesh_calls[0][1] == ("SIMPLICES", 1)))
+            ok = len(calls) == 1 and calls[0][0] == ("vector" if vector else "z")
+            check(f"C20.biot_savart_2d.default_areas.kernel_gets_the_cell_areas_in_square_metres[{tag}]", z3.BoolVal(ok) if not ok else calls[0][4].v.e == SR(R("cell_area_m2")).e)
     obls, n = sym.explore(body)
     return dict(obls=obls, paths=n, sources=[L.info()], consistent=sym.consistent())
 
@@ -655,6 +690,31 @@ def native(seed=0):
             n += 1
             if not np.allclose(B, ref, rtol=1e-9, atol=1e-30) or not np.allclose(Bz, B[:, 2], rtol=1e-12, atol=1e-30):
                 bad.append(dict(what="biot_savart_2d differs from the SI Biot-Savart sum / scalar != z of vector", units=(lu, cu), trial=t))
+        # areas=None (the documented default: "the positions are triangulated to calculate vertex areas"): same field as with the cell areas of the mesh
+        # of these positions handed in explicitly
+        if t < 2:
+            from scipy import spatial
+            from tdgl.finite_volume.mesh import Mesh
+            gx, gy = np.meshgrid(np.linspace(-1, 1, 5 + t), np.linspace(-0.6, 0.6, 4))
+            gpos = np.stack([gx.ravel(), gy.ravel()], 1) + rng.uniform(-0.03, 0.03, size=(gx.size, 2))
+            gJ = rng.normal(size=(len(gpos), 2))
+            for lu in ("um", "nm"):
+                L_ = em.ureg(lu).to("m").magnitude
+                n += 1
+                try:
+                    cell = Mesh.from_triangulation(gpos * L_, spatial.Delaunay(gpos * L_).simplices).areas / L_ ** 2
+                    want = em.biot_savart_2d(x, y, z, positions=gpos, current_densities=gJ, areas=cell, length_units=lu).to("tesla").magnitude
+                except Exception as e:  # noqa - the reference itself could not be built: nothing to compare
+                    continue
+                try:
+                    got = em.biot_savart_2d(x, y, z, positions=gpos, current_densities=gJ, length_units=lu).to("tesla").magnitude
+                except Exception as e:  # noqa
+                    bad.append(dict(what="biot_savart_2d with areas=None (the default) raises instead of triangulating the positions", error=f"{type(e).__name__}: {str(e)[:140]}",
+                                    n_positions=len(gpos), length_units=lu))
+                    continue
+                if not np.allclose(got, want, rtol=1e-9, atol=1e-30):
+                    bad.append(dict(what="biot_savart_2d with areas=None differs from the same call with the cell areas of the triangulated positions", length_units=lu,
+                                    max_rel=float(np.abs(got - want).max() / np.abs(want).max())))
         # integer lattice coordinates (pixel indices) with a real scalar height must give what the same points give as floats
         xi, yi = rng.integers(-3, 4, size=k), rng.integers(-3, 4, size=k)
         zsc = float(rng.uniform(0.3, 0.9))
@@ -763,6 +823,24 @@ def native(seed=0):
                         if not np.allclose(parts[nm].to("tesla * meter").magnitude[:, :2], ref, rtol=1e-9, atol=1e-30):
                             bad.append(dict(what=f"Solution.vector_potential_at_position after moving the solution to another frame: the {nm} part is not that frame's", current_units=cu_))
                     sol.solve_step = sol.data_range[1]
+                # a large cloud of evaluation points at different heights: the answer for a point does not depend on how many other points share the
+                # call, nor on their order (one call = the same points in pieces = reversed order), for the potential and for the field
+                if cu_ == "uA":
+                    big = np.column_stack([rng.uniform(-2, 2, size=(2600, 2)), rng.uniform(0.9, 3.0, size=2600)])
+                    def cur_parts(q_):
+                        # (the applied part of a uniform field is stated about the centre of the points of the call - a gauge choice - so only the parts
+                        # that come from the currents are compared)
+                        pr_ = sol.vector_potential_at_position(q_, units="tesla * meter", with_units=False, return_sum=False)
+                        return np.asarray(pr_["supercurrent_density"]) + np.asarray(pr_["normal_current_density"])
+                    for what_, f_ in (("vector_potential_at_position", cur_parts),
+                                      ("field_at_position", lambda q_: np.asarray(sol.field_at_position(q_, vector=True, units="tesla", with_units=False)))):
+                        n += 1
+                        one = f_(big)
+                        pieces = np.concatenate([f_(big[a_:a_ + 700]) for a_ in range(0, len(big), 700)], axis=0)
+                        rev = f_(big[::-1])[::-1]
+                        if not (np.allclose(one, pieces, rtol=1e-9, atol=1e-30) and np.allclose(one, rev, rtol=1e-9, atol=1e-30)):
+                            bad.append(dict(what=f"Solution.{what_}: 2600 points at different heights evaluated in one call differ from the same points evaluated 700 at a time / in reversed order",
+                                            max_rel_dev=float(max(np.abs(one - pieces).max(), np.abs(one - rev).max()) / (np.abs(one).max() + 1e-300))))
                 # physical sheet current density = K0 (current units / length units) * site average of the dimensionless edge currents
                 n += 1
                 js = sol.device.mesh.get_quantity_on_site(sol.tdgl_data.supercurrent) + sol.device.mesh.get_quantity_on_site(sol.tdgl_data.normal_current)
